@@ -8,6 +8,8 @@ package balloon
 func MembershipProof.DigestVerify
   props C02 C12
   requires snapshot != nil
+  requires p.HistoryProof != nil ==> !isnil(p.HistoryProof.hasher)
+  modifies everything
   ensures C02/accept-implies-exists-and-ordered: result ==> p.Exists && p.ActualVersion <= p.QueryVersion
   ensures C02/accept-implies-parts: result ==> p.HyperProof != nil && p.HistoryProof != nil
 @*/
